@@ -10,6 +10,7 @@ Driver for C20.  `input.kind` selects the sub-check:
   "perform" the real transmit loader wired to the real telemetry, forced performs, verdict
   "resave"  save → save → load through run.SetupOutput / run.LoadSimulationPlan into one directory
   "transmit" un-timed concurrent stress of the real OCR3TransmitLoader (child process)
+  "churn"  subscribers (plugin instances) coming and going on a node's running block source (child process)
 -/
 open Lean AutoVerif.Codec
 namespace AutoVerif.C20
@@ -347,9 +348,13 @@ def handleSim (input impl : Json) : R Reply := do
         | some v => if v = ts.tr.value then none else some s!"{name}: printed value {v}, model {ts.tr.value}"
         | none => none)
   let agree := finished && decide (model = some got) && decide (exit = (exitCode got : Int)) && lineDiffs.isEmpty
-  let f : Nat := match p.configEvents.head? with
-    | some e => (leafInt (e.getD 3 .null)).toNat
-    | none => 0
+  -- a plan may re-configure the network: a report is attested under the configuration in force when it was agreed, so
+  -- the record must hold for the smallest f of the plan's configurations (one config event: its f)
+  let fs : List Nat := p.configEvents.map fun e => (leafInt (e.getD 3 .null)).toNat
+  let f : Nat := match fs with
+    | [] => 0
+    | x :: xs => xs.foldl min x
+  let switches := (natF impl "switches").toOption.getD 0
   let recOk := recordOk f checks sent rows
   let verdictOk := verdictFaithful trackers got
   let si := finished && childExit = 0 && verdictOk && summaryEnd && savedOk && recOk && races = 0 && offChain.isEmpty
@@ -382,6 +387,8 @@ def handleSim (input impl : Json) : R Reply := do
     (if ups.length ≤ 2 then [s!"upkeeps={ups.length}"] else ["upkeeps>2"]) ++
     (if raceBuild then ["race-build"] else []) ++
     (if (boolF input "realtime").toOption.getD false then ["real-clock"] else []) ++
+    (if p.configEvents.length ≥ 2 then [s!"config-events={p.configEvents.length}"] else []) ++
+    (if decide (switches > 0) then ["plugin-instances-replaced"] else []) ++
     (if crash ≠ "" then [if crashInSummary then "summary-crash" else "crash"] else []) ++
     (racesIgnored.eraseDups.map fun site => s!"ignored-go-pretty-race:{site}")
   pure { agree := agree, specModel := sm, specImpl := si,
@@ -661,6 +668,52 @@ def handleTransmit (input impl : Json) : R Reply := do
          tags := ["transmit", s!"k={k}"] ++ (if (boolF impl "race_build").toOption.getD false then ["race-build"] else []),
          key := s!"transmit:{rounds}:{k}:{per}" }
 
+/-! ### "churn" -/
+
+def handleChurn (input impl : Json) : R Reply := do
+  let c ← field input "churn"
+  let mode ← strF c "mode"
+  let workers ← natF c "workers"
+  let instances ← natF c "instances"
+  let slow ← natF c "slow"
+  let want := workers * instances
+  let crash := (strF impl "crash").toOption.getD ""
+  let crashAt := (strF impl "crash_at").toOption.getD ""
+  let races ← natF impl "races"
+  let raceSites := (listF asStr impl "race_sites").toOption.getD []
+  let stage := (strF impl "stage").toOption.getD ""
+  let obs : ChurnObs := {
+    attached := ← natF impl "attached", detached := ← natF impl "detached", saw := ← natF impl "saw",
+    badOrder := ← natF impl "bad_order", notClosed := ← natF impl "not_closed", errors := ← natF impl "errors",
+    afterOk := ← boolF impl "after_ok", done := ← boolF impl "done" }
+  -- the model on the schedule the case aims at (capped): every instance asks to leave while a broadcast is under way
+  let sched := churnSchedule (min slow 4) (min want 40)
+  let m := Hub.run true sched
+  let sm := m.crashFree && m.delivered == (min want 40) * (min slow 4 + 1) && m.chans.length == min slow 4
+  let si := crash = "" && races = 0 && churnOk want obs
+  let hang := (stage.splitOn "hang").length > 1
+  let fail :=
+    if si then ""
+    else if races ≠ 0 then s!"data race in repository code ({races}): {raceSites.eraseDups}"
+    else if crash ≠ "" then
+      s!"simulation crashed: {crash} at {crashAt} — a node's block source died while subscribers (plugin instances) were coming and going ({obs.detached} of {want} had come and gone, mode {mode}, {slow} slow subscriber(s)): no summary, no verdict"
+    else if hang then s!"the block source hangs ({stage}; {obs.detached} of {want} instances had come and gone): no summary, no verdict"
+    else if !obs.done then s!"the churn did not finish (stage {stage})"
+    else if obs.attached ≠ want || obs.detached ≠ want || obs.errors ≠ 0 then
+      s!"{obs.attached} attached / {obs.detached} detached of {want} instances, {obs.errors} Subscribe/Unsubscribe error(s)"
+    else if obs.badOrder ≠ 0 then s!"{obs.badOrder} block histories were not newest first"
+    else if obs.notClosed ≠ 0 then s!"{obs.notClosed} channels were not closed by Unsubscribe"
+    else if !obs.afterOk then "after the churn the block source no longer serves a fresh subscriber (chain head does not advance)"
+    else "no instance received a block history while it was attached"
+  pure { agree := si, specModel := sm, specImpl := si, fail := fail,
+         diff := if si then "" else s!"churn {mode}: attached={obs.attached} detached={obs.detached} of {want} saw={obs.saw} bad_order={obs.badOrder} not_closed={obs.notClosed} errors={obs.errors} after_ok={obs.afterOk} done={obs.done} stage={stage} crash={crash} races={races}",
+         nontrivial := decide (workers ≥ 2 ∧ instances ≥ 1),
+         tags := ["churn", s!"mode={mode}", if slow > 0 then "slow-subscribers" else "no-slow-subscriber"] ++
+           (if decide (obs.saw * 2 ≥ want) then ["most-instances-served"] else []) ++
+           (if (boolF impl "race_build").toOption.getD false then ["race-build"] else []) ++
+           (if crash ≠ "" then ["crash"] else []),
+         key := s!"churn:{mode}:{workers}:{instances}:{slow}:{(natF c "cadence_us").toOption.getD 0}" }
+
 def handle (input impl : Json) : R Reply := do
   match ← strF input "kind" with
   | "plan" => handlePlan input impl
@@ -673,6 +726,7 @@ def handle (input impl : Json) : R Reply := do
   | "resave" => handleResave input impl
   | "collector" => handleCollector input impl
   | "db" => handleDB input impl
+  | "churn" => handleChurn input impl
   | "pipeline" => handlePipeline input impl
   | k => throw s!"unknown C20 case kind {k}"
 
